@@ -104,8 +104,25 @@ func strExecReplace(s *String, values []r.Element) (r.Element, error) {
 	oldItem := values[0].(*String).String()
 	newItem := values[1].(*String).String()
 
+	// the size of the result is known before it is built: refuse what cannot be held
+	// (strings.ReplaceAll asks for all of it at once and panics beyond the allocator's limit)
+	count := int64(strings.Count(s.value, oldItem))
+	if err := checkTextSize(int64(len(s.value)) + count*(int64(len(newItem))-int64(len(oldItem)))); err != nil {
+		return nil, err
+	}
 	result := strings.ReplaceAll(s.value, oldItem, newItem)
 	return NewString(result), nil
+}
+
+// maxTextBytes - the longest text an operation is allowed to build (1 GiB)
+const maxTextBytes = 1 << 30
+
+// checkTextSize - an exception when a text of that many bytes must not be built
+func checkTextSize(size int64) error {
+	if size > maxTextBytes {
+		return ThrowException(fmt.Sprintf("结果文本过长（%d 字节，上限 %d 字节）", size, int64(maxTextBytes)))
+	}
+	return nil
 }
 
 func strExecSplit(s *String, values []r.Element) (r.Element, error) {
@@ -201,6 +218,13 @@ func strExecToUpperCase(s *String, value []r.Element) (r.Element, error) {
 
 func strExecJoin(s *String, values []r.Element) (r.Element, error) {
 	if err := ValidateAllParams(values, "string"); err != nil {
+		return nil, err
+	}
+	total := int64(len(s.value))
+	for _, v := range values {
+		total += int64(len(v.(*String).String()))
+	}
+	if err := checkTextSize(total); err != nil {
 		return nil, err
 	}
 	result := s.value
